@@ -283,9 +283,11 @@ HELPERS = ['OrderedMultiDict._insert', 'OrderedMultiDict._remove_all']
 
 def make_engine(repo):
     from pyvc.engine import Engine
-    eng = Engine(repo, FILE, classes=CLASSES, contracts=CONTRACTS, consts=dict(CONSTS))
+    from .opaque_ext import EXTERNALS
+    eng = Engine(repo, FILE, classes=CLASSES, contracts=CONTRACTS, consts=dict(CONSTS), externals=dict(EXTERNALS))
     for c in ALL:
         eng.register_class(c)
+    eng.feas_ms = 200
     return eng
 
 
@@ -698,3 +700,97 @@ iterkeys = Contract('OrderedMultiDict.iterkeys', setup=setup_iter, requires=pub_
 for _c in [iteritems, iterkeys]:
     CONTRACTS[_c.qualname] = _c
 PUBLIC += [('OrderedMultiDict.iteritems', ['multi']), ('OrderedMultiDict.iterkeys', ['multi'])]
+
+
+# =====================================================================================================================
+# bulk mutators over arbitrary (opaque) arguments: they preserve the invariant and act only through add / []= / del,
+# whose contracts fix the effect of every single step on the pair list
+SeenSet = HeapClass('OSeenSet', 'set', k=VAL)
+ALL.append(SeenSet)
+BULK_HEAP = LL_KEYS + D_KEYS + [('OSeenSet', 'dom'), ('OSeenSet', 'size')]
+
+
+def bulk_setup(*names):
+    def setup(eng, st, variant=None):
+        d = S()(eng, st)
+        for n in names:
+            d[n] = SVal(z3.Const('arg_' + n, Val))
+        return d
+    return setup
+
+
+def bulk_inv(c):
+    return [('wf.' + l, f) for l, f in full_wf(V(c))] + dict_facts(c)
+
+
+def bulk_ensures(c):
+    return post_wf(c)
+
+
+BULK_LOOP = Loop(bulk_inv, heap=BULK_HEAP, ghost=GHOST)
+update = Contract('OrderedMultiDict.update', setup=bulk_setup('E', 'F'), requires=pub_req, ensures=bulk_ensures,
+                  modifies=lambda c: list(BULK_HEAP), local_types=dict(seen=REF(SeenSet)),
+                  loops={'for k in E': BULK_LOOP, 'for k, v in E': BULK_LOOP, 'for k in F': BULK_LOOP})
+update_extend = Contract('OrderedMultiDict.update_extend', setup=bulk_setup('E', 'F'), requires=pub_req, ensures=bulk_ensures,
+                         modifies=lambda c: list(BULK_HEAP),
+                         loops={'for k, v in iterator': BULK_LOOP, 'for k in F': BULK_LOOP})
+
+
+def addlist_ensures(c):
+    o, n = V(c, c.old), V(c)
+    k = c.a('k')
+    r = z3.Int('r')
+    return post_wf(c) + [('every old pair is unchanged and every new pair has key k', z3.And(
+        n.root == o.root,
+        z3.ForAll([r], z3.Implies(r < o.alloc, z3.And(
+            z3.Select(n.live, r) == z3.Select(o.live, r),
+            z3.Implies(z3.Select(o.live, r), z3.And(z3.Select(n.t, r) == z3.Select(o.t, r), z3.Select(n.key, r) == z3.Select(o.key, r),
+                                                    z3.Select(n.val, r) == z3.Select(o.val, r)))))),
+        z3.ForAll([r], z3.Implies(z3.And(r >= o.alloc, z3.Select(n.live, r)), z3.Select(n.key, r) == k))))]
+
+
+def addlist_inv(c):
+    o, n = V(c, c.old), V(c)
+    e = c.x['loop_entry']
+    ve = V(c, e)
+    k = c.a('k')
+    i = c.x['i']
+    r = z3.Int('r')
+    values = c.Lsv('values')
+    jj = z3.Int('jj')
+    base = z3.If(z3.Select(o.ddom, k), o.vlen(k), 0)
+    return [('ll.' + l, f) for l, f in ll_wf(n)] + [
+        ('S1 for the other keys', z3.ForAll([z3.Const('ks', Val)], z3.Implies(z3.Const('ks', Val) != k, z3.Select(n.ddom, z3.Const('ks', Val)) == z3.Select(n.mdom, z3.Const('ks', Val))))),
+        ('S4', d_wf(n)[3][1]),
+        ('values is the value list of k, still at its length before the loop', z3.And(
+            z3.Select(n.ddom, k), values.t == n.VL(k), values.t >= 1, values.t < n.alloc, n.vlen(k) == base)),
+        ('k has its old cells plus one per value consumed', z3.And(
+            z3.Implies(i >= 1, z3.And(z3.Select(n.mdom, k), n.clen(k) == base + i)),
+            z3.Implies(i == 0, z3.Select(n.mdom, k) == z3.Select(o.mdom, k)),
+            z3.Implies(z3.And(i == 0, z3.Select(o.mdom, k)), n.clen(k) == base))),
+        ('value lists of the other keys are in step (S2, S3)', z3.ForAll([z3.Const('kk', Val)], z3.Implies(
+            z3.And(z3.Select(n.mdom, z3.Const('kk', Val)), z3.Const('kk', Val) != k), z3.And(
+                n.vlen(z3.Const('kk', Val)) == n.clen(z3.Const('kk', Val)), n.VL(z3.Const('kk', Val)) >= 1,
+                n.VL(z3.Const('kk', Val)) < n.alloc,
+                z3.ForAll([jj], z3.Implies(z3.And(0 <= jj, jj < n.clen(z3.Const('kk', Val))),
+                                           n.value(z3.Const('kk', Val), jj) == z3.Select(n.val, n.cell(z3.Const('kk', Val), jj)))))))),
+        ("k's old values are in step, the new cells hold the consumed values in order", z3.And(
+            z3.ForAll([jj], z3.Implies(z3.And(0 <= jj, jj < base), n.value(k, jj) == z3.Select(n.val, n.cell(k, jj)))),
+            z3.ForAll([jj], z3.Implies(z3.And(0 <= jj, jj < i), z3.Select(n.val, n.cell(k, base + jj)) == c.eng.f_oseq_item(c.L('v'), jj))))),
+        ('old pairs unchanged, new pairs have key k', z3.And(
+            n.root == o.root,
+            z3.ForAll([r], z3.Implies(r < o.alloc, z3.And(
+                z3.Select(n.live, r) == z3.Select(o.live, r),
+                z3.Implies(z3.Select(o.live, r), z3.And(z3.Select(n.t, r) == z3.Select(o.t, r), z3.Select(n.key, r) == z3.Select(o.key, r),
+                                                        z3.Select(n.val, r) == z3.Select(o.val, r)))))),
+            z3.ForAll([r], z3.Implies(z3.And(r >= o.alloc, z3.Select(n.live, r)), z3.Select(n.key, r) == k))))]
+
+
+addlist = Contract('OrderedMultiDict.addlist', setup=bulk_setup('k', 'v'), requires=pub_req, ensures=addlist_ensures,
+                   modifies=PUB_MOD, local_types=dict(values=REF(ValList)),
+                   loops={'for subv in v': Loop(addlist_inv, heap=LL_KEYS + D_KEYS, ghost=GHOST)})
+for _c in [update, update_extend, addlist]:
+    _c.ghost_mod = GHOST
+    _c.facts = dict_facts
+    CONTRACTS[_c.qualname] = _c
+PUBLIC += [('OrderedMultiDict.update', [None]), ('OrderedMultiDict.update_extend', [None]), ('OrderedMultiDict.addlist', [None])]
